@@ -469,6 +469,19 @@ func checkC08(c *Ctx) error {
 				}
 				args = append(args, "-o", "out.go")
 				env := append([]string{"PATH=" + w.EmptyBin, "HOME=" + dir}, z...)
+				earlier := ""
+				if zi%2 == 1 {
+					// the output path already holds what ANOTHER build of the tool generated for the same configuration a moment ago
+					// (an upgrade of the tool between two runs of `go generate`): no input of this run
+					other := w.Bin
+					if zi%4 == 3 && si > 0 {
+						other = filepath.Join(w.Dir, "bin", fmt.Sprintf("gontainer-stamped%d", si-1))
+					}
+					if r0 := work.Run(other, dir, env, 120*time.Second, nil, args...); r0.Exit == 0 {
+						c.Add("stamped_build_runs_over_the_output_of_another_build", 1)
+						earlier = " over the output of another build of the tool for the same configuration"
+					}
+				}
 				res := work.Run(sb, dir, env, 120*time.Second, nil, args...)
 				b, _ := os.ReadFile(filepath.Join(dir, "out.go"))
 				obs := res.Stdout + "\n--exit " + fmt.Sprint(res.Exit) + "\n--file--\n" + string(b)
@@ -482,7 +495,11 @@ func checkC08(c *Ctx) error {
 					continue
 				}
 				if obs != first {
-					c.Violate("output-depends-on-time-zone-or-locale", fmt.Sprintf("build stamped %q: environment %v gives another report/file than %v\n%s", st, z, zones[0], firstDiff(first, obs)), map[string]string{"ldflags.txt": st})
+					sig := "output-depends-on-time-zone-or-locale"
+					if earlier != "" {
+						sig = "output-depends-on-environment-or-earlier-output"
+					}
+					c.Violate(sig, fmt.Sprintf("build stamped %q: environment %v%s gives another report/file than %v on a fresh path\n%s", st, z, earlier, zones[0], firstDiff(first, obs)), map[string]string{"ldflags.txt": st})
 					break
 				}
 			}
